@@ -109,6 +109,13 @@ def may_open_ring(seed):
     return int(seed) % 3 == 0
 
 
+SIGN_ENUM_OF_COUNTRY = {"DEU": "TrafficSignIDGermany", "ZAM": "TrafficSignIDZamunda", "USA": "TrafficSignIDUsa",
+                        "CHN": "TrafficSignIDChina", "ESP": "TrafficSignIDSpain", "RUS": "TrafficSignIDRussia",
+                        "ARG": "TrafficSignIDArgentina", "BEL": "TrafficSignIDBelgium", "FRA": "TrafficSignIDFrance",
+                        "GRC": "TrafficSignIDGreece", "HRV": "TrafficSignIDCroatia", "ITA": "TrafficSignIDItaly",
+                        "PRI": "TrafficSignIDPuertoRico", "AUS": "TrafficSignIDAustralia"}
+
+
 class Gen:
     def __init__(self, seed, fmt="xml", edge=False):
         self.rng = random.Random(seed)
@@ -339,10 +346,15 @@ class Gen:
                         and np.array_equal(up.right_vertices, x.left_vertices):
                     up.right_vertices = x.left_vertices
         signs, lights, inters = [], [], []
-        from commonroad.scenario.traffic_sign import TrafficSignIDCountries
-        sign_ids = [m for m in TrafficSignIDCountries[self.country] if m.value in set(self.enums["trafficSignID"])
+        # the sign ids of the scenario's country, from the harness's own table (the library's table is code under test:
+        # seed C01-14 corrupted one row of it)
+        import commonroad.scenario.traffic_sign as _ts
+        sign_ids = [m for m in getattr(_ts, SIGN_ENUM_OF_COUNTRY[self.country])
+                    if m.value in set(self.enums["trafficSignID"])
                     and (self.fmt == "xml" or m.name in PB()[0].get(type(m).__name__, []))]
-        for _ in range(r.randint(0, 3)):
+        # (a country none of whose ids the format can express gets no signs: ids of another country's table are not
+        # signs of this scenario - the XML reader deliberately re-reads a German "274" as the country's own MAX_SPEED)
+        for _ in range(r.randint(0, 3) if sign_ids else 0):
             users = r.sample(lls, r.randint(1, min(2, len(lls))))
             els = []
             for _ in range(r.randint(1, 2)):
@@ -483,6 +495,9 @@ class Gen:
     def build(self):
         r = self.rng
         self.country = r.choice(["ZAM", "DEU", "USA", "ESP", "ZAM"])
+        r2 = random.Random(self.seed ^ 0xC0)
+        if r2.random() < 0.3:      # the ten other supported countries (no draw from the main stream)
+            self.country = r2.choice(["CHN", "ITA", "PRI", "PRI", "AUS", "AUS", "RUS", "ARG", "BEL", "FRA", "GRC", "HRV"])
         net = self.network()
         dt = r.choice([0.1, 0.04, 0.2, 1.0, 0.05]) if not self.edge else r.choice([0.1, 1e-5, 0.00025, 2.0])
         sid = ScenarioID(r.random() < 0.2, self.country, r.choice(["Test", "Urban", "A9"]),
